@@ -10,8 +10,9 @@ ASSUMPTIONS = [
     "shrink unit: the AST is projected on spans and last sub-expressions (arena references are boxes, unread payloads opaque); slice patterns are desugared to length tests (R-slice); Span::new's ordering contract is assumed there and proved by the Kani harness C08/span/new_contract; `visible_end` (which sub-expression ends each kind of expression) is my specification, taken from the grammar",
     "termination not proved by Kani",
 ]
-NOT_UNDER_CONTRACT = ["parser/src/infix.rs reparse as a whole (the per-operator shift/reduce block IS under contract; and so is the final fold; the token loop that connects them, the Infixes iterator and error recovery are not: no grouping theorem for the whole function)", "parser/src/layout.rs layout_next_token",
-                      "parser/src/token.rs tokenizer", "parser/src/grammar.lalrpop", "where shrink_hidden_spans is applied (grammar actions)"]
+NOT_UNDER_CONTRACT = ["parser/src/infix.rs reparse as a whole (the per-operator shift/reduce block IS under contract; and so is the final fold; the token loop that connects them, the Infixes iterator and error recovery are not: no grouping theorem for the whole function)", "parser/src/layout.rs layout_next_token other than its arm for an explicit `in` closing a let/type/rec context (Contexts::last/last_mut: std semantics assumed; check_unindentation_limit assumed not to change the stack)",
+                      "parser/src/token.rs tokenizer other than block_comment and take_until (the one-byte primitives bump / lookahead are assumed: consume / peek one byte; the string operations of the doc-comment branch are opaque)",
+                      "parser/src/grammar.lalrpop other than the fold closure of the BlockExpr action (arena allocation = boxing, pos::spanned2 = Span::new ordering)", "where shrink_hidden_spans is applied (grammar actions)"]
 POS = "base/src/pos.rs"
 INFIX = "parser/src/infix.rs"
 
@@ -53,6 +54,8 @@ def obligations(tier):
         ("Offside::new", "field-wise constructor"),
         ("Contexts::push", "pushes the context unless the indentation check refuses; nothing else changes"),
         ("Contexts::pop", "pops the innermost context"),
+        ("Layout::layout_token", "a layout token takes the position of the token that triggered it, which is queued again as the next token"),
+        ("layout_next_token::block_separator", "a token at the column of a block that already holds an expression: a separator is emitted in front of it, the token is queued again, and the block's separator flag is cleared (no second separator for the same token)"),
         ("layout_next_token::explicit_in", "explicit `in` closing a let/type/rec context: the body block is opened at the location of the ENCLOSING context with emit_semi = false, the enclosing block's separator flag is cleared, an enclosing rec marker is popped, an OpenBlock token with the span of `in` is queued and `in` is passed on"),
     ]]
     out += [dict(engine="verus", unit="shrink", function="grammar::BlockExpr::fold_step", name="C08/parser/block_fold_step", source="parser/src/grammar.lalrpop::BlockExpr (the fold closure of the semantic action)",
